@@ -1488,6 +1488,23 @@ var _ uuid.UUID
 //@ loop 4
 //@ invariant [ids] snapshotIds != nil
 
+// C14 / C10: a catalogue snapshot lists the record of every dataset, each as the catalogue holds it - in particular with its
+// partitions in the catalogue's order (routing is positional: partition i owns the ids with UuidMod(id, n) == i)
+//@ spec sameRecord(a *pb.Dataset, b *pb.Dataset) bool = uuidOfBytes(a.Id) == uuidOfBytes(b.Id) && a.Dimension == b.Dimension && a.Space == b.Space && a.PartitionCount == b.PartitionCount && a.ReplicationFactor == b.ReplicationFactor && len(a.Partitions) == len(b.Partitions) && forall j int :: 0 <= j && j < len(a.Partitions) ==> a.Partitions[j] == b.Partitions[j]
+//@ func (*storage.DatasetManager).snapshot
+//@ props C14 C10
+//@ safety UNCLAIMED
+//@ at call proto.Marshal
+//@ requires [C14 snapshot-lists-every-dataset] len(asptr($arg0.pay, pb.DatasetManagerSnapshot).Datasets) == len(this.datasets) && forall id uuid.UUID :: has(this.datasets, id) ==> exists k int :: 0 <= k && k < len(this.datasets) && asptr($arg0.pay, pb.DatasetManagerSnapshot).Datasets[k] != nil && sameRecord(asptr($arg0.pay, pb.DatasetManagerSnapshot).Datasets[k], this.datasets[id].meta)
+//@ requires [C14 snapshot-lists-only-datasets] forall k int :: 0 <= k && k < len(this.datasets) ==> exists id uuid.UUID :: has(this.datasets, id) && sameRecord(asptr($arg0.pay, pb.DatasetManagerSnapshot).Datasets[k], this.datasets[id].meta)
+//@ end
+//@ requires [wf] this.datasets != nil && forall id uuid.UUID :: has(this.datasets, id) ==> this.datasets[id] != nil && this.datasets[id].meta != nil
+//@ modifies nothing
+//@ loop 1
+//@ invariant [filling] i == $count && 0 <= i && i <= len(datasets) && len(datasets) == len(this.datasets) && fresh(datasets)
+//@ invariant [C14 every-visited-listed] forall id uuid.UUID :: $visited[id] ==> exists k int :: 0 <= k && k < i && datasets[k] != nil && sameRecord(datasets[k], this.datasets[id].meta)
+//@ invariant [C14 only-datasets-listed] forall k int :: 0 <= k && k < i ==> exists id uuid.UUID :: $visited[id] && has(this.datasets, id) && sameRecord(datasets[k], this.datasets[id].meta)
+
 //@ func (*storage.DatasetManager).updatePartitionNodes
 //@ props C14
 //@ assume
